@@ -15,6 +15,7 @@ namespace TfelVerif.C23.PropsN1
 open TfelVerif TfelVerif.Mandel TfelVerif.C23
 set_option linter.all false
 set_option maxHeartbeats 16000000
+set_option maxRecDepth 100000
 variable {K : Type} [Field K] (c c3 : K) (fn : Fns K)
 
 /-- `DS_DC ← DS_DEGL` (1D): along every variation `δF = L F` the converted operator, applied to the
